@@ -2,6 +2,7 @@
 (a) the decision (ValueError of _post_checks / other exception / accepted) and, when accepted,
 (b) whether Model.delay_arguments_function can be built and its outputs at the given integer points."""
 import os
+import re
 import shutil
 import tempfile
 
@@ -72,6 +73,11 @@ def handler(case):
             if name in pt["vals"]:
                 v = pt["vals"][name]
                 return (list(v) + [0] * n)[:n]
+            m_ = re.fullmatch(r"(.*?)\[(\d+)(?:,\d+)*\]", name)       # expand_vectors: v[k], _pymoca_delay_j[1,1]
+            if m_ and m_.group(1) in pt["vals"]:
+                v = pt["vals"][m_.group(1)]
+                k = int(m_.group(2)) - 1
+                return [v[k] if k < len(v) else 0] * n
             return [0] * n
         args = [float(pt["time"]), _vec(m.states, look), _vec(m.der_states, look), _vec(m.alg_states, look),
                 _vec(m.inputs, look), _vec(m.constants, look), _vec(m.parameters, look)]
